@@ -293,7 +293,7 @@ Definition put_item_ok (it : witem) : Prop :=
 
 Definition get_item_ok (it : witem) : Prop :=
   length (it_k it) = 32%nat /\ length (it_sig it) = 64%nat /\ in_int64 (it_seq it) = true /\
-  forall bv, it_bv it = Some bv -> one_raw_valueb bv = true.
+  forall bv, it_bv it = Some bv -> bv = [] \/ one_raw_valueb bv = true.
 
 Definition get_result_ok (r : get_result) : Prop :=
   match r with
@@ -656,7 +656,7 @@ Section ServerEncode.
         + by_reply H. ret_tac. repeat split; try tauto. intros q [= <-]. exact Iseq.
         + destruct (it_bv it) as [bv|] eqn:Ebv; [|discriminate H].
           by_reply H. ret_tac. repeat split; try tauto.
-          * right. apply Ibv. reflexivity.
+          * apply Ibv. reflexivity.
           * intros q [= <-]. exact Iseq. }
     by_error H.
   Qed.
@@ -930,7 +930,7 @@ Qed.
 (* ---- the store invariant of the Bep44 wrapper: every stored item has the codec's field widths ---- *)
 Definition b44_item_ok (i : Bep44.item) : Prop :=
   length (Bep44.it_k i) = 32%nat /\ length (Bep44.it_sig i) = 64%nat /\
-  in_int64 (Bep44.it_seq i) = true /\ one_raw_valueb (Bep44.it_bv i) = true.
+  in_int64 (Bep44.it_seq i) = true /\ (Bep44.it_bv i = [] \/ one_raw_valueb (Bep44.it_bv i) = true).
 
 Definition b44_store_ok (st : Bep44.store) : Prop := forall t i, In (t, i) st -> b44_item_ok i.
 
@@ -995,12 +995,11 @@ Theorem wf_store_items_bep44 edv exp store_fail :
 Proof.
   split.
   - intros st it now st' r Hst (Hk & Hsig & Hseq & Hbv). unfold RunServer.w_put_impl.
-    destruct (it_bv it) as [bv|] eqn:Ebv.
-    2:{ intros [= <- <-]. split; [exact Hst | discriminate]. }
+    set (bv := RunServer.put_bv it).
     assert (Hi : b44_item_ok (RunServer.to_b44 it bv)).
     { unfold b44_item_ok, RunServer.to_b44. cbn [Bep44.it_k Bep44.it_sig Bep44.it_seq Bep44.it_bv].
-      repeat split; try assumption.
-      destruct Hbv as [F|(v & Hc & E)]; [discriminate F|]. injection E as ->. apply one_raw_benc. exact Hc. }
+      repeat split; try assumption. unfold bv, RunServer.put_bv.
+      destruct Hbv as [F|(v & Hc & E)]; [rewrite F; left; reflexivity|]. rewrite E. right. apply one_raw_benc. exact Hc. }
     destruct (Bep44.wrapper_put _ _ _ _ _ _) as [r0 st1] eqn:Ew.
     destruct (b44_wrapper_put_spec _ _ _ _ _ _ Hst Hi Ew) as (Hst1 & Herr).
     intros [= <- <-]. split.
